@@ -77,6 +77,13 @@ def parse_twitter_url(url):
     parsed = safe_urlsplit(url)
     path = pathsplit(parsed.path)
 
+    # NOTE: old fragment routing ("twitter.com/#!/user"), read in a loop and not
+    # by recursion since the route can again be one ("#!#!#!...")
+    while not path and parsed.fragment.startswith("!"):
+        route = re.sub(TWITTER_FRAGMENT_ROUTING_RE, "", parsed.fragment)
+        parsed = safe_urlsplit("twitter.com/" + route)
+        path = pathsplit(parsed.path)
+
     if path:
         user_screen_name = normalize_screen_name(path[0])
 
@@ -89,11 +96,6 @@ def parse_twitter_url(url):
             return TwitterTweet(user_screen_name=user_screen_name, id=path[2])
 
         return TwitterUser(screen_name=user_screen_name)
-
-    if parsed.fragment.startswith("!"):
-        path = re.sub(TWITTER_FRAGMENT_ROUTING_RE, "", parsed.fragment)
-
-        return parse_twitter_url("twitter.com/" + path)
 
     return None
 
